@@ -959,7 +959,7 @@ impl Scenario for C17 {
     fn runs(&self, tier: Tier) -> u64 {
         match tier {
             Tier::Quick => 150_000,
-            Tier::Thorough => 12_000_000,
+            Tier::Thorough => 6_000_000,
         }
     }
     fn generate(&self, rng: &mut Rng, _tier: Tier, _index: u64) -> Case {
